@@ -201,7 +201,7 @@ Theorem hsim_invoke c he hs s sp v tag t args cd lc lc' pc he0 x tn cls ce q cl 
     (forall o, finishes im pcb s' o -> finishes im pc s o) /\
     acs (ptypes p) (cl_body cl) (cl_ctx cl ++ ctx_of_env ce) lcb = Ok (cb, lcb') /\ code_at im pcb cb /\ labels_at_nh im pcb cb /\
     lin_check (sigs_of p) (cl_ctx cl ++ ctx_of_env ce) (cl_body cl) = true /\
-    ann_check (cl_ctx cl ++ ctx_of_env ce) (cl_body cl) = true /\
+    ann_check (cl_ctx cl ++ ctx_of_env ce) (cl_body cl) = true /\ stmt_lits (cl_body cl) = true /\
     hrel (cl_ctx cl ++ ctx_of_env ce) (attach e1 (ptrs he0) ++ attach ce (load_ptrs hs (List.length ce) q))
          (hrun (load_ops (List.length ce) q) hs) s' sp /\
     hframe_eq s s' sp.
@@ -232,7 +232,7 @@ Proof.
   destruct (find (fun d => ident_eqb (tname d) tn) (ptypes p)) as [d'|] eqn:FD; [|discriminate]. inversion LT; subst d'. clear LT.
   destruct (find_clause_pos cls (txtors d) tag cl 0%N CO FC) as (k & xk & Hk & Hxk & XP & FX & SMk).
   pose proof (cls_sig_length _ _ CO) as LCL.
-  destruct (ENTRY k cl Hk) as (i & pcc & lcl & cl1 & lcb & cb & lcb' & IX & SMa & ARR & LD & BDY & CAb & LAb & LCb & ANb).
+  destruct (ENTRY k cl Hk) as (i & pcc & lcl & cl1 & lcb & cb & lcb' & IX & SMa & ARR & LD & BDY & CAb & LAb & LCb & ANb & LITb).
   pose proof (hr_frame R) as F.
   assert (T2' : atpos Snd (List.length c0) = Ok t2) by (rewrite <- L0; exact T2).
   assert (T1' : atpos Fst (List.length c0) = Ok t1) by (rewrite <- L0; exact T1).
@@ -323,7 +323,7 @@ Proof.
     exists pcc, lcl, cb, lcb', sj.
     split; [intros o FIN; apply (exec_to_finishes im _ _ _ _ o XJ); apply ARR; exact FIN|].
     split; [exact BDY|]. split; [exact CAbd|]. split; [exact LAbd|].
-    split; [exact LCb|]. split; [exact ANb|]. split; [|exact FEj]. cbn [List.length load_ops hrun fold_left attach]. rewrite !app_nil_r. exact Rj.
+    split; [exact LCb|]. split; [exact ANb|]. split; [exact LITb|]. split; [|exact FEj]. cbn [List.length load_ops hrun fold_left attach]. rewrite !app_nil_r. exact Rj.
   - set (ce := ce0 :: cer) in *.
     assert (NEc : map snd ce <> []) by discriminate.
     assert (XFj : xflds (hword sj) (map snd ce) q).
@@ -339,7 +339,7 @@ Proof.
     exists (padd pcc (List.length cl1)), lcb, cb, lcb', s'.
     split.
     { intros o FIN. apply (exec_to_finishes im _ _ _ _ o XJ). apply ARR. exact (exec_to_finishes im _ _ _ _ o XL FIN). }
-    split; [exact BDY|]. split; [exact CAbd|]. split; [exact LAbd|]. split; [exact LCb|]. split; [exact ANb|].
+    split; [exact BDY|]. split; [exact CAbd|]. split; [exact LAbd|]. split; [exact LCb|]. split; [exact ANb|]. split; [exact LITb|].
     split; [rewrite load_ops_run by (cbn; lia); exact RL|eapply hframe_eq_trans; eassumption].
 Qed.
 End HC.
